@@ -311,6 +311,16 @@ class Harness:
 
     def start(self) -> None:
         self.main_task = self.loop.create_task(self.reactor._async_main_loop())
+        self.loop.is_spinner = self._is_spinner
+
+    def _is_spinner(self, task) -> bool:
+        """tasks known to busy-wait on sleep(0): the reactor main loop, and a peer waiting for an incoming connection"""
+        if task is self.main_task:
+            return True
+        for peer in self.reactor._peers.values():
+            if peer._async_task is task:
+                return peer.proto is None and peer.fsm.name() == 'ACTIVE'
+        return False
 
     def __exit__(self, *exc) -> None:
         try:
